@@ -38,6 +38,18 @@ CLAIMED['C05'] = {
           'lemma enc_val(Struct) is a dict used as axiom; termination. Bounded: native oracle comparison on generated values of the corpus.',
   'design': '3 (C05)',
 }
+CLAIMED['C06'] = {
+  'text': 'Decoder, partly proved: make_stone_friendly (every primitive kind, strict and lenient, with and without validation), '
+          'determine_struct_tree_subtype, decode_list, decode_map and decode_nullable are proved to return exactly the reference '
+          'decoding or to raise ValidationError and nothing else, for every JSON value (this is where the TypeError / ValueError escapes '
+          'were found and repaired). decode_struct, decode_struct_tree, decode_union_dict and the dispatching helper build heap objects '
+          'and are NOT proved in this revision: they are compared with the reference decoder (SpecPy dec_ok / dec_val, written from '
+          'json_serializer.rst and the accept/reject list of the property) on generated documents -- a bounded stand-in.',
+  'note': 'Scope: new-style JSON, caller without extra permissions, no alias validators. Trusted: PyVC translator, closed-world JSON '
+          'universe, strptime / b64decode as uninterpreted functions with their documented exception classes (axioms TS, B64), '
+          'GEN-WF. Bounded (not proved): the four heap-building decoder functions on 600 generated documents each per run.',
+  'design': '3 (C06)',
+}
 NOT_YET = {}
 NA = {
  'C09': 'property of emitted Python source when imported; no contract on an emitting function can express the semantics of its output text',
